@@ -37,17 +37,22 @@ func Satisfies(testExpression string, allowedList []string) (bool, error) {
 	}
 	sortAndDedup(allowedNodes)
 
-	expandedExpression := expressionNode.expand(true)
+	return expressionNode.isSatisfiedBy(allowedNodes), nil
+}
 
-	for _, expressionPart := range expandedExpression {
-		if isCompatible(expressionPart, allowedNodes) {
-			// return once any expressionPart is compatible with the allow list
-			// * each part is an array of licenses that are ANDed, meaning all have to be on the allowedList
-			// * the parts are ORed, meaning only one of the parts need to be compatible
-			return true, nil
-		}
+// isSatisfiedBy evaluates the expression tree against the allowed licenses: an AND expression
+// needs both operands satisfied, an OR expression needs either, and a license or license
+// reference needs a compatible allowed license.  This is the same answer as looking for a
+// compatible part in expand(), but without building the parts first; their number doubles
+// with every ANDed OR expression, so a few hundred bytes of expression could allocate gigabytes.
+func (n *node) isSatisfiedBy(allowed []*node) bool {
+	if n.isAndExpression() {
+		return n.left().isSatisfiedBy(allowed) && n.right().isSatisfiedBy(allowed)
 	}
-	return false, nil
+	if n.isOrExpression() {
+		return n.left().isSatisfiedBy(allowed) || n.right().isSatisfiedBy(allowed)
+	}
+	return isCompatible([]*node{n}, allowed)
 }
 
 // stringsToNodes converts an array of single license strings to to an array of license nodes.
